@@ -91,13 +91,14 @@ if os.environ.get('BFG9000_VERIF') == '1':
             if _fault_kind == 'kill_before':
                 os._exit(137)
             raise OSError(28, 'BFG9000_VERIF injected fault before %s of %s' % (op, rel))
+        err = None
+        res = None
         try:
             res = do()
         except BaseException as e:
             # a mutation that fails by itself (e.g. remove of a missing file) is still a point of the run
+            err = e
             rec['error'] = type(e).__name__
-            _log(rec)
-            raise
         if hit:
             rec['fault'] = _fault_kind
         _log(rec)
@@ -105,6 +106,8 @@ if os.environ.get('BFG9000_VERIF') == '1':
             if _fault_kind == 'kill_after':
                 os._exit(137)
             raise OSError(28, 'BFG9000_VERIF injected fault after %s of %s' % (op, rel))
+        if err is not None:
+            raise err
         return res
 
     class _WFile:
